@@ -190,6 +190,19 @@ Theorem pom_decl_write_exact_on_D : forall c ups,
 Proof. exact pom_decl_write_exact_on_D_lemma. Qed.
 Print Assumptions pom_decl_write_exact_on_D.
 
+(* Exactness on D_prop: ONE update of a declaration whose version uses ${properties}, in a well-formed
+   chain, the key declared once, generatePropertyPatches succeeds, no placeholder name twice; for every
+   placeholder the definition in effect (own profile first, then project level, closest descendant
+   first) sits in the declaring pom, in the block buildPatches writes to, and no other declaration of the
+   chain resolves to it. Then Write succeeds, the addressed declaration stands for VersionTo and every
+   other effective version is unchanged. (Several such updates at once, or mixed with literal ones, are
+   claimed by the oracle on d_full and tied by vm_compute, not proved.) *)
+Theorem pom_decl_property_update_exact_on_D : forall c u,
+  d_prop c u = true ->
+  exists c', write_chain c [u] = Some c' /\ decl_spec_ok c [u] c' = true.
+Proof. exact pom_decl_property_update_exact_lemma. Qed.
+Print Assumptions pom_decl_property_update_exact_on_D.
+
 (* The full statement (every update addressed to an existing declaration) is refuted three ways. *)
 Definition kA : bytes := [103;58;97;124;106;97;114;124].    (* g:a|jar| *)
 Definition kB : bytes := [103;58;98;124;106;97;114;124].    (* g:b|jar| *)
@@ -243,4 +256,24 @@ Example pom_decl_example :
               eff_all c' = [(0%nat, PARENT, [103;58;112;124;112;111;109;124], [49]); (0%nat, [], kA, []);
                             (0%nat, MANAGEMENT, kA, [49;46;49]); (0%nat, [], [103;58;99;124;106;97;114;124], [55]);
                             (1%nat, PROFILE ++ [64;112;49], kB, [52;46;49;51])]).
+Proof. split; [vm_compute; reflexivity|]. eexists. split; [vm_compute; reflexivity|]. split; vm_compute; reflexivity. Qed.
+
+(* non-vacuity of D_prop: the same property name v in the project properties and in two profiles, the
+   dependency of profile p1 uses 1.${v}-jre and is updated: only p1's v changes *)
+Definition ex_chain2 : chain :=
+  [ {| pm_path := [99];
+       pm_props := [ {| pf_origin := []; pf_name := [118]; pf_val := [48] |};
+                     {| pf_origin := PROFILE ++ [64;112;49]; pf_name := [118]; pf_val := [53] |};
+                     {| pf_origin := PROFILE ++ [64;112;50]; pf_name := [118]; pf_val := [55] |} ];
+       pm_decls := [dcl [] kA [36;123;118;125];
+                    dcl (PROFILE ++ [64;112;49]) kB [49;46;36;123;118;125;45;106;114;101];
+                    dcl (PROFILE ++ [64;112;50] ++ AT_MANAGEMENT) [103;58;99;124;106;97;114;124] [36;123;118;125]] |} ].
+Definition ex_pupd2 : pupd :=
+  {| pu_key := kB; pu_to := [49;46;57;45;106;114;101]; pu_pom := 0; pu_origin := PROFILE ++ [64;112;49] |}.
+
+Example pom_decl_property_example :
+  d_prop ex_chain2 ex_pupd2 = true /\
+  (exists c', write_chain ex_chain2 [ex_pupd2] = Some c' /\
+              map (fun x => snd x) (eff_all c') = [[48]; [49;46;57;45;106;114;101]; [55]] /\
+              map (fun x => snd x) (eff_all ex_chain2) = [[48]; [49;46;53;45;106;114;101]; [55]]).
 Proof. split; [vm_compute; reflexivity|]. eexists. split; [vm_compute; reflexivity|]. split; vm_compute; reflexivity. Qed.
